@@ -75,6 +75,10 @@ def cases(tier):
     out.append(("maxval", "K", -1.0, 1.0, 14.0))
     for ph, post in itertools.product([-7.0, -math.pi, -1e-12, 0.0, 1.0, 2 * math.pi, 7.0, 100.0], [0.0, -1.0, 7.0]):
         out.append(("pulse", ph, post))
+    # phases next to whole numbers of turns (the float just below / at / just above k x 2 pi, both signs) and of very large magnitude:
+    # the stored phase is the exact float remainder, inside [0, 2 pi)
+    for k in (list(range(1, 130)) if tier == "quick" else list(range(1, 3001))):
+        out.append(("phase-turns", k))
     out.append(("pulse-bad", "neg-amp"))
     out.append(("pulse-bad", "length"))
     out.append(("pulse-bad", "tiny-neg-amp"))
@@ -292,6 +296,48 @@ def check_maxval_boundary(kind, d, beta, sign):
         if float(np.max(np.abs(S(mk(D - 1))))) <= mx * (1 - 1e-12):
             out.append((f"C16:from-max-val-not-tight:{tag}", f"max_val just {side} the peak of the {d} ns window: duration {D} chosen although {D - 1} ns also fits"))
     return out
+
+
+def _exact_mod_2pi(x):
+    from fractions import Fraction
+
+    m = Fraction(2 * np.pi)
+    r = Fraction(x) % m  # exact; a float remainder of two floats is itself representable
+    return float(r)
+
+
+def check_phase_turns(k):
+    from pulser import Pulse
+    from pulser.waveforms import ConstantWaveform, RampWaveform
+
+    out = []
+    t = k * 2 * np.pi
+    big = [float(np.ldexp(1.0 + k / 4096.0, e)) for e in (50, 53, 59, 70)] if k % 8 == 0 else []
+    xs = [np.nextafter(t, -np.inf), t, np.nextafter(t, np.inf), -np.nextafter(t, -np.inf), -t, -np.nextafter(t, np.inf)] + big + [-b for b in big]
+    amp, det = ConstantWaveform(10, 1.0), RampWaveform(10, -1.0, 1.0)
+    makers = {
+        "Pulse": lambda x: Pulse(amp, det, x),
+        "ConstantPulse": lambda x: Pulse.ConstantPulse(10, 1.0, 0.0, x),
+        "ConstantDetuning": lambda x: Pulse.ConstantDetuning(amp, 0.0, x),
+        "ConstantAmplitude": lambda x: Pulse.ConstantAmplitude(1.0, det, x),
+        "post_phase_shift": lambda x: Pulse(amp, det, 0.0, post_phase_shift=x),
+    }
+    for x in xs:
+        x = float(x)
+        want = _exact_mod_2pi(x)
+        for name, mk in makers.items():
+            try:
+                p = mk(x)
+            except Exception as e:
+                out.append((f"C16:phase-refused:{name}", f"phase {x!r}: {e!r}"[:200]))
+                continue
+            got = float(p.post_phase_shift if name == "post_phase_shift" else p.phase)
+            kind = "large" if abs(x) > 1e12 else "next-to-whole-turns"
+            if not (0 <= got < 2 * np.pi):
+                out.append((f"C16:phase-outside-[0,2pi):{name}:{kind}", f"phase {x!r} stored as {got!r}"))
+            elif got != want:
+                out.append((f"C16:phase-is-not-the-remainder:{name}:{kind}", f"phase {x!r} stored as {got!r}, exact remainder {want!r}"))
+    return out + [("@phase-turns", "")]
 
 
 def check_pulse(ph, post):
@@ -522,7 +568,7 @@ def worker(case):
         np.seterr(all="ignore")
         k = case[0]
         fn = {"wf": lambda: check_wf(case[1]), "whist": lambda: check_whist(case[1], tuple(case[2])), "maxval": lambda: check_maxval(*case[1:]),
-              "maxval-boundary": lambda: check_maxval_boundary(*case[1:]), "pulse": lambda: check_pulse(*case[1:]),
+              "maxval-boundary": lambda: check_maxval_boundary(*case[1:]), "pulse": lambda: check_pulse(*case[1:]), "phase-turns": lambda: check_phase_turns(case[1]),
               "pulse-bad": lambda: check_pulse_bad(case[1]), "arbphase": lambda: check_arbphase(case[1])}.get(k)
         if fn is None:
             return []  # unknown kind: reported by the vacuity guard of gridx.run
